@@ -85,6 +85,8 @@ def modset(E: Engine, c: FnContract, pre_view: State, cfr: Frame) -> dict:
 
 def parse_key(E, s: str):
     kind, _, rest = s.partition(":")
+    if s == "*":
+        return ("*",)
     if kind == "fld":
         cname, attr = rest.split(".")
         owner, t, imm = E.fld_key(cname, attr)
@@ -113,7 +115,15 @@ def not_in_modset(entries, r):
 
 
 def havoc_modset(E: Engine, st: State, ms: dict, pre: State, allocates=False):
+    if ("*",) in ms:
+        # the callee may change any location
+        for key in (set(st.heap) | set(E.heap0)) - {("alloc",)}:
+            st.heap[key] = fresh("any_" + str(key[0]), E.h(st, key).sort())
+            st.note_write(key, None)
+        allocates = True
     for key, entries in ms.items():
+        if key == ("*",):
+            continue
         old = E.h(st, key)
         if key[0] == "glob":
             st.heap[key] = fresh("hv_glob", old.sort())
@@ -179,6 +189,8 @@ def wf_after_havoc(E: Engine, st: State, ms: dict):
 def frame_formula(E: Engine, fr: Frame, st: State, key):
     """Objects outside the enclosing function's modifies clause hold their function-entry value."""
     if fr.modsets is None or fr.old is None or key[0] in ("alloc", "glob", "itsrc", "itpos"):
+        return None
+    if ("*",) in fr.modsets:
         return None
     if fr.contract is not None and fr.contract.gen:
         return None   # coroutine: the environment acts at every yield; frames are the two-state step postconditions
@@ -340,9 +352,11 @@ def verify_function(E: Engine, q: str) -> dict:
             check_post(E, fr, c, o.st, old, val, c.ensures, "post", c)
             check_frame(E, fr, c, o.st, old, "frame")
         elif o.kind == "raise":
-            if o.exc in c.raises:
-                check_post(E, fr, c, o.st, old, None, c.raises[o.exc], f"raises:{o.exc}", c)
-                check_frame(E, fr, c, o.st, old, f"frame:{o.exc}")
+            from .engine import exc_matches
+            declared = o.exc if o.exc in c.raises else next((h for h in c.raises if exc_matches(o.exc, h)), None)
+            if declared is not None:
+                check_post(E, fr, c, o.st, old, None, c.raises[declared], f"raises:{declared}", c)
+                check_frame(E, fr, c, o.st, old, f"frame:{declared}")
             else:
                 E.oblige(fr, o.st, "noraise", f"{o.exc}", z3.BoolVal(False), info=f"exception edge at {o.where}")
         else:
@@ -376,6 +390,8 @@ def check_post(E, fr, c, st, old, val, posts, kind, contract):
 
 def check_frame(E, fr, c, st, old, kind):
     ms = fr.modsets or {}
+    if ("*",) in ms:
+        return
     old_alloc = E.alloc(old)
     for key in touched_keys(E, st, old):
         if key[0] in ("alloc", "itsrc", "itpos"):
